@@ -48,6 +48,11 @@ CLAIMS = {
             'Decides that the algorithm shape of seeded key generation and of key derivation (hash, salt value, ikm/info operands, PRNG type, '
             'buffer slicing, chaining through re-parse, DER prefixes) equals the documented one, so that a self-consistent change of salt/hash/PRNG '
             'is caught. Numeric key values are runtime facts and not decided.'),
+    'C20': (TECH_RULES, '§4 C20',
+            'Decides for all paths of the C entry points: a null test dominates every use of each raw-pointer parameter and of each handle loaded through one, '
+            'and its null edge cannot report Success; Box::from_raw is paired with Box::leak on every normal exit unless the handle was released; the Err '
+            'outcome of every fallible library call cannot reach Success; callback adapters return Ok only on status 0 with the reported count; extraction '
+            'registers only caller-initialised writers and goes through linear_extract. Byte equality with the Rust interface is not decided.'),
 }
 
 NOT_APPLICABLE = {
